@@ -95,6 +95,7 @@ fn autodespawn_clone_is_silent()
     drop(c2);
     assert!(d.try_recv() == Some(ent(idx)), "C10: last drop sends the entity");
     assert!(d.try_recv().is_none(), "C10: exactly once");
+    kani::cover!(true, "end of harness reached");
 }
 
 /// Clones of the AutoDespawner resource share one channel (collection sees signals prepared via any clone).
@@ -109,6 +110,7 @@ fn autodespawn_despawner_clone_shares_channel()
     drop(s);
     assert!(d.try_recv() == Some(ent(5)));
     assert!(d2.try_recv().is_none());
+    kani::cover!(true, "end of harness reached");
 }
 
 #[kani::proof]
